@@ -53,6 +53,21 @@ var c02Tree = []c10Entry{{Path: "a", Size: 5}, {Path: "sub", Dir: true}, {Path: 
 
 // c02Stream builds the client byte stream of a session (refnum is the transfer reference number).
 func c02Stream(session string, refnum []byte) []byte {
+	if strings.HasPrefix(session, "pad:") {
+		// pipelined control session whose third transaction header starts at a chosen offset of the
+		// scanner's 4096-byte buffer: login, a chat line of L bytes, then small requests
+		var L int
+		fmt.Sscanf(session, "pad:%d", &L)
+		b := append([]byte(nil), ref.Handshake()...)
+		lt := world.LoginTx("u", "pw", ref.FS(ref.FUserName, "uu"), ref.F16(ref.FUserIconID, 3))
+		lt.ID = 1
+		b = append(b, lt.Encode()...)
+		b = append(b, ref.Tx{Type: ref.TChatSend, ID: 2, Fields: []ref.Fld{ref.FS(ref.FData, strings.Repeat("p", L))}}.Encode()...)
+		b = append(b, ref.Tx{Type: ref.TKeepAlive, ID: 3}.Encode()...)
+		b = append(b, ref.Tx{Type: ref.TGetUserNameList, ID: 4}.Encode()...)
+		b = append(b, ref.Tx{Type: ref.TChatSend, ID: 5, Fields: []ref.Fld{ref.FS(ref.FData, "end")}}.Encode()...)
+		return b
+	}
 	switch session {
 	case "control":
 		var b []byte
@@ -113,9 +128,9 @@ func c02Observe(w *explore.Worker, c c02Case) (obs string, ok bool) {
 		})
 		defer wd.Close()
 		var sb strings.Builder
-		if c.Session == "control" {
+		if c.Session == "control" || strings.HasPrefix(c.Session, "pad:") {
 			u := wd.Dial("10.0.0.1:1001")
-			c02Feed(u.Conn, c02Stream("control", nil), c)
+			c02Feed(u.Conn, c02Stream(c.Session, nil), c)
 			world.Settle(10 * time.Second)
 			u.Poll()
 			fmt.Fprintf(&sb, "greeting=%x parse=%v stray=%d closed=%v\n%s\n", u.Greeting, u.ParseErr, len(u.Unparsed()), u.Conn.Closed, canonTxs(u.Inbox))
@@ -181,13 +196,20 @@ func c02Run(w *explore.Worker, c c02Case) {
 		if c.Chunk == 0 && len(c.Cuts) > 0 {
 			where = c02Region(c.Session, c.Cuts[0], len(stream))
 		}
-		w.Violation("C02/"+c.Session+"/observation-depends-on-segmentation/"+where,
+		sess := c.Session
+		if strings.HasPrefix(sess, "pad:") {
+			sess = "control-pipelined"
+		}
+		w.Violation("C02/"+sess+"/observation-depends-on-segmentation/"+where,
 			fmt.Sprintf("session %s delivered with cuts %v / pieces of %d: observation differs from the unsplit run\n--- split\n%s--- unsplit\n%s", c.Session, c.Cuts, c.Chunk, clip(obs, 1500), clip(base, 1500)), len(c.Cuts)+c.Chunk, c)
 	}
 	w.Outcome(c.Session + "|" + fmt.Sprint(explore.Hash(obs)))
 }
 
 func c02Region(session string, cut, n int) string {
+	if strings.HasPrefix(session, "pad:") {
+		return "pipelined-session-around-the-scanner-buffer-end"
+	}
 	switch {
 	case session == "control" && cut < 12:
 		return "inside-handshake"
@@ -227,6 +249,17 @@ func c02Cases(thorough bool) []c02Case {
 		for _, ch := range []int{1, 2, 3, 5, 7, 11, 13, 16} {
 			cs = append(cs, c02Case{Session: s, Chunk: ch})
 		}
+	}
+	// pipelined control sessions: every position of a transaction header relative to the end of the scanner's
+	// initial 4096-byte buffer (the baseline is the byte-at-a-time delivery of the same session)
+	base := len(c02Stream("pad:0", nil)) - 12 - len(ref.Tx{Type: ref.TKeepAlive, ID: 3}.Encode()) - len(ref.Tx{Type: ref.TGetUserNameList, ID: 4}.Encode()) - len(ref.Tx{Type: ref.TChatSend, ID: 5, Fields: []ref.Fld{ref.FS(ref.FData, "end")}}.Encode())
+	for off := 4096 - 40; off <= 4096+8; off++ {
+		L := off - base
+		if L < 0 {
+			continue
+		}
+		s := fmt.Sprintf("pad:%d", L)
+		cs = append(cs, c02Case{Session: s, Chunk: 1 << 20}, c02Case{Session: s, Chunk: 1000}, c02Case{Session: s, Chunk: 4096}, c02Case{Session: s, Cuts: []int{12}}, c02Case{Session: s, Chunk: 1})
 	}
 	return cs
 }
